@@ -46,7 +46,14 @@ func (x *Exec) chanDecorate(v *Val, name string, st *St, fr *Frame) *Val {
 	if v == nil || v.Ty == nil || fr == nil || fr.inlined || x.pure {
 		return v
 	}
-	if _, isChan := v.Ty.Underlying().(*types.Chan); !isChan {
+	prefix := "chan."
+	if sl, isSlice := v.Ty.Underlying().(*types.Slice); isSlice {
+		// a slice of channels: every element carries the protocol (protocols with subjects are not supported here)
+		if _, isChan := sl.Elem().Underlying().(*types.Chan); !isChan {
+			return v
+		}
+		prefix = "chans."
+	} else if _, isChan := v.Ty.Underlying().(*types.Chan); !isChan {
 		return v
 	}
 	cd := x.carryDecl(fr, name)
@@ -56,8 +63,11 @@ func (x *Exec) chanDecorate(v *Val, name string, st *St, fr *Frame) *Val {
 	if x.W.CS.ByKey["chan."+cd.Proto] == nil {
 		cfail("carries %s: unknown channel protocol %s", name, cd.Proto)
 	}
+	if prefix == "chans." && len(cd.Args) > 0 {
+		cfail("carries %s: a slice of channels cannot carry a protocol with subjects", name)
+	}
 	c := *v
-	c.Proto = "chan." + cd.Proto
+	c.Proto = prefix + cd.Proto
 	c.Subj = nil
 	if len(cd.Args) > 0 {
 		env := &CEnv{X: x, Names: x.localNames(st, fr, nil), St: st, Pkg: x.Fn.Pkg}
@@ -218,6 +228,28 @@ func (x *Exec) chanRecv(ch *Val, st *St, fr *Frame, p token.Pos) (*Val, *Val) {
 	// a closed channel delivers the zero value
 	if z := x.zeroVal(ct.Elem()); z.T != nil && v.T != nil {
 		x.assume(st, Implies(Not(ok.T), Eq(v.T, z.T)))
+	}
+	// "receives G := e": ghost bookkeeping of the receiving goroutine, performed when a value was delivered (ok)
+	if cc := x.chanContract(ch); cc != nil && len(cc.Receives) > 0 {
+		env := x.chanEnv(st, cc, ch, v)
+		name := strings.TrimPrefix(cc.Key, "chan.")
+		x.wrapCfail("receives of channel "+name, func() {
+			vals := make([]*Term, len(cc.Receives))
+			for i, r := range cc.Receives {
+				vals[i] = env.tr(r.Expr).T
+			}
+			for i, r := range cc.Receives {
+				g := x.W.GhostVars[r.Var]
+				if g == nil || vals[i] == nil || vals[i].Sort != g.Sort {
+					cfail("receives %s of channel %s: unknown ghost variable or wrong sort", r.Var, name)
+				}
+				x.checkWrite(st, g.Key, Null, p)
+				old := st.field(g)
+				nw := x.fresh(g.Key, g.Sort)
+				x.assume(st, Eq(nw, Ite(ok.T, vals[i], old)))
+				st.heap[g.Key] = nw
+			}
+		})
 	}
 	st.note("receive from a channel at %s", pos)
 	return v, ok
@@ -403,6 +435,11 @@ func (x *Exec) checkCarries(c *Contract, names map[string]*Val, env *CEnv, st *S
 		}
 		cd := c.Carries[pn]
 		want := "chan." + cd.Proto
+		if v.Ty != nil {
+			if _, isSlice := v.Ty.Underlying().(*types.Slice); isSlice {
+				want = "chans." + cd.Proto
+			}
+		}
 		tmpl := oblTemplate{kind: "carries", label: pn, pos: pos, clause: "channel argument " + pn + " carries " + cd.Text,
 			name: x.Fn.Key + "/" + where + "/carries#" + pn}
 		if v.Proto != want {
